@@ -28,7 +28,7 @@ Definition jan_selected (signed strict aggressive : bool) (stale sample : N) (k 
   else if k_proto k =? IPPROTO_TCP then
     let established := if aggressive then JAN_TCP_EST_NS / 2 else JAN_TCP_EST_NS in
     let closing := if aggressive then JAN_TCP_CLOSING_NS / 2 else JAN_TCP_CLOSING_NS in
-    let should := if cs_state s =? 1 then jan_exceeds strict age (Z.of_N closing)
+    let should := if cs_state s =? JAN_CLOSING_STATE then jan_exceeds strict age (Z.of_N closing)
                   else jan_exceeds strict age (Z.of_N established) in
     should || stale_hit
   else false.
